@@ -369,6 +369,36 @@ PROPS['C14'] = dict(
     explanation='Injectivity of the sharing key is the invariant the compiler\'s CommonGroups map relies on; a refutation with concrete field numbers is a schema that breaks the property.',
 )
 
+PROPS['C04'] = dict(
+    units=['k_dec', 'k_fac'], level='model_checking', design_ref='13/C04',
+    technique='CBMC assertions on MessageBase::decode (clang AST of runtime/message.cpp) over a ghost token sequence and presence set, the loop unwound for the stated bound; Message::decode and '
+              'Message::factory (real bodies) composed with that per-part behaviour as a model; refutations replayed through the real Message::factory on the generated FIX42 test classes',
+    text='Strict mode, one message part (header / body / trailer), BOUNDED to texts of at most 3 tokens and parts of at most 3 field traits (no groups, no Length/data pairs, no framework-maintained '
+         'fields): decode stops on a token boundary; every token before the returned offset was legal for the part and became exactly one field with its own tag, built from its own value text, '
+         'at consecutive positions; a repeated tag raises; it stops only at a tag that is not legal for the part; no mandatory field is missing on return; nothing is kept as unknown. '
+         'Message::factory / Message::decode (proved-modular over that per-part behaviour): parts are decoded header, body, trailer, each from where the previous one stopped, the trailer up to the '
+         'checksum field; unframed text, an unknown message type, a text not ending in the checksum field or a checksum mismatch are not accepted. '
+         'KNOWN FINDING (refuted, replayed on the real code): factory drops the length decode() consumed, so a message is accepted although tokens remain -- everything from the first tag that is not '
+         'legal where it stands (undefined tag, misplaced field) up to the checksum is silently discarded (NewOrderSingle with 29999=zzz after the mandatory fields: accepted, 44= and 58= lost). '
+         'NOT decided: repeating groups (decode_group), Length/data pairs, automatic fields repeated after extract_header, numeric text variants, the bound itself.',
+    note='per-part obligations are a bounded stand-in (3 tokens, 3 traits), never counted as proved; the factory composition is modular over an ASSUMED per-part model',
+    trusted_base=COMMON_TRUST,
+    explanation='Acceptance of a whole message is the conjunction of the three per-part decodes and the final check that nothing is left; the last conjunct is what the code omits.',
+)
+PROPS['C05'] = dict(
+    units=['k_dec'], level='model_checking', design_ref='13/C05',
+    technique='CBMC assertions on MessageBase::decode in permissive mode (clang AST of runtime/message.cpp) over a ghost token sequence, loop unwound for the stated bound; the refutation replayed '
+              'through the real Message::factory / Message::encode on the generated FIX42 test classes',
+    text='Permissive mode, one message part, BOUNDED (3 tokens, 3 field traits): the returned offset lies inside the text; no known field before the returned offset is lost. '
+         'KNOWN FINDING (refuted, replayed on the real code): a part that rewinds to its first unknown token -- which every header does, since the body\'s fields are unknown to it -- keeps the whole '
+         'run in its unknown buffer, so the text after the offset it hands on is BOTH kept by this part and decoded by the next: re-encoding a permissively decoded message emits the body and the '
+         'checksum field again (a conforming 139-byte NewOrderSingle re-encodes to 218 bytes with three 10= fields). A repair has to decide which part owns a trailing unknown run (the last part must '
+         'keep it): recorded, not patched. NOT decided: unknown fields inside groups, byte-for-byte re-emission of the retained unknown text (std::string append is a logging model), the bound itself.',
+    note='bounded stand-in (3 tokens, 3 traits), never counted as proved',
+    trusted_base=COMMON_TRUST,
+    explanation='Pass-through needs each unknown token to be owned by exactly one part; the obligation states that as "what a part keeps lies before what it hands on".',
+)
+
 # ---------------------------------------------------------------- native replayers
 import os
 import re
@@ -591,7 +621,20 @@ def _replay_k_ghash(oid, inputs, trace, wd):
     return out
 
 
+
+def _replay_k_dec(oid, inputs, trace, wd):
+    R = _rp.astdump.REPO
+    exe = _rp.build_native(os.path.join(_rp.VERIF, 'replay', 'k_dec.cpp'), os.path.join(wd, 'replay_k_dec'),
+                           extra=[R + '/runtime/message.cpp', '-I/repo/utests', '-L/repo/utests/.libs', '-lutest', '-L/repo/runtime/.libs', '-lfix8',
+                                  '-Wl,-rpath,/repo/utests/.libs', '-Wl,-rpath,/repo/runtime/.libs'], timeout=900)
+    which = 'strict_unknown' if 'C04.factory' in oid else 'all' if 'C04' in oid else 'permissive_plain' if 'C05' in oid else 'all'
+    rc, o = _rp.run_native(exe, [which])
+    return dict(steps=[dict(kind='native: real Message::factory (and Message::encode for the re-encoding) on generated FIX42 test classes, scenario ' + which, rc=rc, output=o[-1500:])], reproduced=rc == 1)
+
+
 replayers['k_tok'] = _replay_k_tok
+replayers['k_dec'] = _replay_k_dec
+replayers['k_fac'] = _replay_k_dec
 replayers['k_ghash'] = _replay_k_ghash
 replayers['k_seq'] = _replay_k_seq
 replayers['k_hb'] = _replay_k_seq
